@@ -52,7 +52,7 @@ PROPS = {
         "technique": "Lean 4 proof (per-layer refinement theorems over Go-slice semantics; induction over reply scripts) + differential correspondence under recover() with poisoned windows",
         "ref": "§5 C05",
         "proofs": ["Bmc.Proofs.C05.Basic", "Bmc.Proofs.C05.Core", "Bmc.Proofs.C05.Sess", "Bmc.Proofs.C05.Sdr", "Bmc.Proofs.C05.Setup", "Bmc.Proofs.C05.Dcmi", "Bmc.Proofs.C05.Calls"],
-        "scenarios": ["dec", "send", "slsend", "hs", "api", "enum", "sdr", "suite"],
+        "scenarios": ["dec", "send", "slsend", "hs", "api", "enum", "sdr", "suite", "udp"],
         "rule": "dec: per layer 150 (thorough 3000) specification-conforming encodings, each decoded fresh / in a poisoned window / after another valid input; every truncation and 1-3 byte extension of 40 of them; single-bit corruptions; random bytes; all ordered pairs of a pool; layer-specific branch steering (crafted AES plaintexts for every pad length x pattern, 7-byte responses, every trailer length). send: exhaustive reply scripts over an 18-letter alphabet (forged, truncated, mis-signed, mis-padded, runt, ...) to depth 3 (thorough: + a quarter of depth 4). Non-trivial = input passing the layer's first length guard / script with a non-final outcome before its end; distinct = distinct op line.",
         "modelled": ["all DecodeFromBytes methods, LayersDecoder chain, in-session retry loop are hand models tied by correspondence; crypto/aes + cipher.CBC assumed lawful (decBlock inverts encBlock, lengths preserved)"],
         "assumptions": ["gopacket hands each layer LayerPayload() of the previous one (window into the receive buffer)"],
